@@ -1,5 +1,261 @@
-(* C20 — map_blocks block_info/block_id match the layout the call was built against (placeholder). *)
-From DA Require Import PyBase.
+(* C20 — map_blocks block_info/block_id match the layout the call was built against.
+   Statements only; proofs in theories/BlockInfoFacts.v.  The model (theories/BlockInfo.v)
+   transcribes the payload construction of dask_array/_map_blocks.py, Blockwise.chunks /
+   _compute_block_id, ChunksFreeze.lower_once and _preserve_grid_contract; harness/c20.py
+   compares it on every run with the dictionaries read out of the real ArrayValuesDep, with
+   ChunksFreeze.lower_once outcomes and with the real gate.
+
+   How the clauses of the property map to theorems:
+   * "each invocation receives the chunk location, array location and chunk shape of the
+     layout advertised when the call was made": C20_block_info_matches_layout (output
+     entry, any call), C20_input_info_matches_layout (input entries), C20_array_location_tiles
+     (per axis), C20_single_input_closed_form (the plain call, in closed form);
+   * "the block it is given has exactly that shape": C20_block_given_is_block_described
+     (the block index the Blockwise task passes = the chunk-location in block_info) together
+     with C20_freeze_restores (the input the task reads has the frozen = advertised layout);
+   * "whatever rewrites optimization applies above or below": C20_freeze_restores /
+     C20_freeze_unknown_refuses (below: any settled layout), C20_gate (above: pushdowns
+     through a node with a grid-sensitive dependent keep the chunks). *)
+From DA Require Import PyBase Rechunk CrosswalkFacts BlockInfo BlockInfoFacts.
+From DA Require UnknownChunks BlockInfoAgree.
 Open Scope Z_scope.
-Example C20_placeholder : zsum [1;2;3] = 6. Proof. reflexivity. Qed.
-Print Assumptions C20_placeholder.
+
+(* ---------------- one axis ---------------- *)
+
+(* the array-location intervals of an axis tile [0, n) in block order; each interval is as
+   long as the advertised chunk; the lookup never raises inside the grid *)
+Theorem C20_array_location_tiles : forall cs,
+  Forall (fun c => 0 <= c) cs ->
+  tiles_from 0 (map (array_location_t cs) (zseq (length cs))) (zsum cs) /\
+  (forall j, 0 <= j < lenZ' cs ->
+     array_location cs j = Some (array_location_t cs j) /\
+     snd (array_location_t cs j) - fst (array_location_t cs j) = nthZ cs j).
+Proof. exact array_location_axis. Qed.
+
+(* ---------------- the payload of an arbitrary call ---------------- *)
+
+(* For EVERY map_blocks call the model accepts (several inputs, broadcasting, drop_axis,
+   new_axis, chunks=): the keys of the payload are the block grid of the ADVERTISED output
+   chunks `oc`, each grid point exactly once and in order; block_info[None] of the entry at
+   `bid` is the advertised layout at `bid` (shape, num-chunks, array-location, chunk-location,
+   chunk-shape) and chunk-shape = the lengths of the array-location intervals. *)
+Theorem C20_block_info_matches_layout : forall args drop new_axis chunks out_ind oc p,
+  map_blocks_info args drop new_axis chunks = MOk (out_ind, oc, p) ->
+  map (fun e => fst (fst e)) p = block_ids oc /\
+  NoDup (block_ids oc) /\
+  (forall loc, In loc (block_ids oc) <-> in_grid oc loc) /\
+  (forall bid ins o, In (bid, ins, o) p ->
+     in_grid oc bid /\ o = out_info_t oc bid /\
+     snd o = map (fun ab => snd ab - fst ab) (map2 array_location_t oc bid)).
+Proof. exact map_blocks_info_matches_layout. Qed.
+
+Theorem C20_block_count : forall oc, Z.of_nat (length (block_ids oc)) = number_of_blocks oc.
+Proof. exact block_ids_count. Qed.
+
+(* every entry has exactly one info per ARRAY argument, keyed by the argument position *)
+Theorem C20_input_entries : forall args dr out_ind oc p bid ins o,
+  block_info_payload args dr out_ind oc = Some p -> In (bid, ins, o) p ->
+  (forall i cs, nth_error args i = Some (Some cs) ->
+     exists b, in_info cs dr out_ind bid = Some b /\ In (Z.of_nat i, b) ins) /\
+  (forall i b, In (i, b) ins ->
+     exists cs, 0 <= i /\ nth_error args (Z.to_nat i) = Some (Some cs) /\ in_info cs dr out_ind bid = Some b).
+Proof. exact payload_input_entries. Qed.
+
+(* without dropped axes the info of an input describes a block of the INPUT's own advertised
+   layout: chunk-location inside its grid, array-location = that block's interval *)
+Theorem C20_input_info_matches_layout : forall cs out_ind bid sh nc al cl,
+  in_info cs false out_ind bid = Some (sh, nc, al, cl) ->
+  sh = map zsum cs /\ nc = map lenZ' cs /\ in_grid cs cl /\ al = map2 array_location_t cs cl.
+Proof. exact in_info_sound. Qed.
+
+(* ... and it is the very block the Blockwise task hands to the function
+   (_compute_block_id with the idx_to_block of the final Blockwise, whose new_axes is {}) *)
+Theorem C20_block_given_is_block_described : forall cs out_ind bid sh nc al cl b,
+  in_info cs false out_ind bid = Some (sh, nc, al, cl) ->
+  dep_block_id cs out_ind [] bid = Some b ->
+  b = cl.
+Proof. exact block_given_is_block_described. Qed.
+
+(* dropped axes (drop_axis): the blocks are concatenated along them, and the info says so:
+   one chunk spanning the whole axis; kept axes are described as usual *)
+Theorem C20_dropped_axis_info : forall cs out_ind bid sh nc al cl j c ind,
+  in_info cs true out_ind bid = Some (sh, nc, al, cl) ->
+  nth_error cs j = Some c -> nth_error (rev_range (length cs)) j = Some ind ->
+  zmem ind out_ind = false ->
+  nth_error nc j = Some 1 /\ nth_error cl j = Some 0 /\ nth_error al j = Some (0, zsum c).
+Proof. exact in_info_dropped_axis. Qed.
+
+Theorem C20_kept_axis_info : forall cs dr out_ind bid sh nc al cl j c ind,
+  in_info cs dr out_ind bid = Some (sh, nc, al, cl) ->
+  nth_error cs j = Some c -> nth_error (rev_range (length cs)) j = Some ind ->
+  dr = false \/ zmem ind out_ind = true ->
+  exists l, nth_error nc j = Some (lenZ' c) /\ nth_error cl j = Some l /\ 0 <= l < lenZ' c /\
+            nth_error al j = Some (array_location_t c l).
+Proof. exact in_info_kept_axis. Qed.
+
+(* the plain call map_blocks(f, x), x advertising chunks cs, in closed form: the advertised
+   output chunks are cs, and for every block of the grid block_info[0] and block_info[None]
+   are the same description of the advertised layout *)
+Theorem C20_single_input_closed_form : forall cs,
+  map_blocks_info [Some cs] [] None None =
+  MOk (rev_range (length cs), cs, map (single_entry cs) (block_ids cs)).
+Proof. exact map_blocks_single_input. Qed.
+
+(* block_id: ArrayBlockIdDep(out.chunks) hands every block its own index of the advertised grid *)
+Theorem C20_block_id_payload : forall oc,
+  map fst (block_id_payload oc) = block_ids oc /\ Forall (fun e => snd e = fst e) (block_id_payload oc).
+Proof. exact block_id_payload_spec. Qed.
+
+(* ---------------- ChunksFreeze ---------------- *)
+
+(* _chunks_match is equality of layouts (nan = None) *)
+Theorem C20_chunks_match_is_equality : forall a b, chunks_match a b = true <-> a = b.
+Proof. exact chunks_match_eq. Qed.
+
+(* After lowering, the chunks the consumer sees are the frozen ones, or lowering raised —
+   never a different layout.  (Both layouts describe the same array: equal rank.) *)
+Theorem C20_freeze_restores : forall frozen settled,
+  length frozen = length settled ->
+  match consumer_chunks settled (chunks_freeze_lower frozen settled) with
+  | Some c => c = frozen
+  | None => True
+  end.
+Proof. exact freeze_restores. Qed.
+
+Theorem C20_freeze_vanishes_when_settled_matches : forall frozen, chunks_freeze_lower frozen frozen = FVanish.
+Proof. exact freeze_vanish_same. Qed.
+
+Theorem C20_freeze_rechunk_only_when_restorable : forall frozen settled t,
+  length frozen = length settled ->
+  chunks_freeze_lower frozen settled = FRechunk t ->
+  t = frozen /\ existsb has_nan frozen = false /\ settled <> frozen /\ validate_rechunk_b settled frozen = true.
+Proof. exact freeze_rechunk_inv. Qed.
+
+Theorem C20_freeze_unknown_refuses : forall frozen settled,
+  existsb has_nan frozen = true -> settled <> frozen ->
+  chunks_freeze_lower frozen settled = FError FRuntimeError.
+Proof. exact freeze_unknown_refuses. Qed.
+
+(* The statement of C20_freeze_restores WITHOUT the equal-rank hypothesis is false of the
+   faithful model: ArrayExpr.rechunk zips the requested chunks with the array's chunks
+   (truncating), so ChunksFreeze(x, ((3,3,6),(1,))) over x with chunks ((3,3,6),) lowers to x
+   itself.  Replayed against /repo (see harness corpus); unreachable from map_blocks, which
+   freezes a.chunks of the very array it wraps. *)
+Theorem C20_freeze_rank_mismatch_refuted :
+  exists frozen settled, chunks_freeze_lower frozen settled = FVanish /\ settled <> frozen.
+Proof. exact freeze_rank_mismatch_refuted. Qed.
+
+(* the _chunks_match / _validate_rechunk used above are the very functions C28 models
+   (theories/UnknownChunks.v) *)
+Theorem C20_freeze_uses_C28_guards : forall old new,
+  BlockInfo.chunks_match old new = UnknownChunks.chunks_match old new /\
+  (length old = length new ->
+   UnknownChunks.validate_rechunk old new =
+   if validate_rechunk_b old new then UnknownChunks.Proceed tt else UnknownChunks.Refuse UnknownChunks.ValueError).
+Proof. exact (fun old new => conj (BlockInfoAgree.chunks_match_agrees old new) (BlockInfoAgree.validate_rechunk_agrees old new)). Qed.
+
+(* ---------------- the grid-preservation gate ---------------- *)
+
+(* _preserve_grid_contract: when the pushed-into parent has a grid-sensitive dependent, a
+   pushdown is accepted only if `self` is not a Blockwise and the result advertises exactly
+   the parent's chunks; holds for both values of the nan-identity oracle *)
+Theorem C20_gate : forall (R : Type) nan_same self_is_blockwise deps parent_chunks (r : R) rc res,
+  has_grid_sensitive deps = true ->
+  preserve_grid_contract nan_same self_is_blockwise deps parent_chunks (Some (r, rc)) = Some res ->
+  self_is_blockwise = false /\ rc = parent_chunks /\ res = (r, rc).
+Proof. exact (@gate_accepts_only_unchanged). Qed.
+
+Theorem C20_gate_declined_stays_declined : forall (R : Type) nan_same sb deps pc,
+  @preserve_grid_contract R nan_same sb deps pc None = None.
+Proof. exact (@gate_none). Qed.
+
+Theorem C20_gate_inactive_without_sensitive_dependent : forall (R : Type) nan_same sb deps pc (result : option (R * ochunks)),
+  has_grid_sensitive deps = false -> preserve_grid_contract nan_same sb deps pc result = result.
+Proof. exact (@gate_free). Qed.
+
+(* the gate is not vacuous: an unchanged known layout passes *)
+Theorem C20_gate_accepts_unchanged_known : forall (R : Type) nan_same deps (pc : ochunks) (r : R),
+  existsb has_nan pc = false ->
+  preserve_grid_contract nan_same false deps pc (Some (r, pc)) = Some (r, pc).
+Proof. exact (@gate_known_chunks_accepts). Qed.
+
+(* who is grid sensitive: the Blockwise built by map_blocks (align_arrays=False) and MapBlocksOutput *)
+Theorem C20_grid_sensitive_nodes : forall k align_arrays,
+  requires_grid k align_arrays = true <-> (k = KBlockwise /\ align_arrays = false) \/ k = KMapBlocksOutput.
+Proof. exact requires_grid_iff. Qed.
+
+(* ---------------- the hypotheses are satisfiable / concrete instances ---------------- *)
+
+(* the docstring example of map_blocks: chunks ((1,3),(2,2,2)), block (1,2) *)
+Example C20_ex_docstring :
+  exists p, map_blocks_info [Some [[1;3];[2;2;2]]] [] None None = MOk ([1;0], [[1;3];[2;2;2]], p) /\
+            nth_error p 5 = Some ([1;2], [(0, ([4;6], [2;3], [(1,4);(4,6)], [1;2]))],
+                                  (([4;6], [2;3], [(1,4);(4,6)], [1;2]), [3;2])).
+Proof. eexists. split; vm_compute; reflexivity. Qed.
+
+(* drop_axis=1: the dropped axis is described as one chunk (0, 6); new_axis + chunks= *)
+Example C20_ex_drop_axis :
+  map_blocks_info [Some [[1;3];[2;2;2]]] [1] None None =
+  MOk ([1], [[1;3]],
+       [([0], [(0, ([4;6], [2;1], [(0,1);(0,6)], [0;0]))], (([4], [2], [(0,1)], [0]), [1]));
+        ([1], [(0, ([4;6], [2;1], [(1,4);(0,6)], [1;0]))], (([4], [2], [(1,4)], [1]), [3]))]).
+Proof. vm_compute. reflexivity. Qed.
+
+Example C20_ex_new_axis_two_inputs :
+  exists p, map_blocks_info [Some [[2;2];[3]]; None; Some [[3]]] [] (Some [0]) (Some [CInt 1; CTup [5;5]; CInt 3])
+            = MOk ([2;1;0], [[1];[5;5];[3]], p) /\ length p = 2%nat /\
+            nth_error p 1 = Some ([0;1;0], [(0, ([4;3], [2;1], [(2,4);(0,3)], [1;0])); (2, ([3], [1], [(0,3)], [0]))],
+                                  (([1;10;3], [1;2;1], [(0,1);(5,10);(0,3)], [0;1;0]), [1;5;3])).
+Proof. eexists. split; [|split]; vm_compute; reflexivity. Qed.
+
+(* inconsistent block counts make the construction raise IndexError, as the code does *)
+Example C20_ex_inconsistent_blocks :
+  map_blocks_info [Some [[2;2]]; Some [[1;1;1]]] [] None None = MErr MBIndexError.
+Proof. vm_compute. reflexivity. Qed.
+
+Example C20_ex_freeze_rechunk :
+  chunks_freeze_lower [[Some 6; Some 6]] [[Some 3; Some 3; Some 6]] = FRechunk [[Some 6; Some 6]].
+Proof. vm_compute. reflexivity. Qed.
+
+Example C20_ex_freeze_unknown :
+  chunks_freeze_lower [[None; None]] [[Some 2; Some 2]] = FError FRuntimeError /\
+  chunks_freeze_lower [[Some 2; Some 2]] [[None; None]] = FError FValueError /\
+  chunks_freeze_lower [[None; Some 2]] [[None; Some 2]] = FVanish.
+Proof. vm_compute. auto. Qed.
+
+Example C20_ex_gate :
+  preserve_grid_contract true false [(KBlockwise, false)] [[Some 2; Some 2]] (Some (tt, [[Some 4]])) = None /\
+  preserve_grid_contract true false [(KBlockwise, false)] [[Some 2; Some 2]] (Some (tt, [[Some 2; Some 2]])) = Some (tt, [[Some 2; Some 2]]) /\
+  preserve_grid_contract true true [(KBlockwise, false)] [[Some 2; Some 2]] (Some (tt, [[Some 2; Some 2]])) = None /\
+  preserve_grid_contract true false [(KElemwiseLike, false)] [[Some 2; Some 2]] (Some (tt, [[Some 4]])) = Some (tt, [[Some 4]]).
+Proof. vm_compute. auto. Qed.
+
+Print Assumptions C20_array_location_tiles.
+Print Assumptions C20_block_info_matches_layout.
+Print Assumptions C20_block_count.
+Print Assumptions C20_input_entries.
+Print Assumptions C20_input_info_matches_layout.
+Print Assumptions C20_block_given_is_block_described.
+Print Assumptions C20_dropped_axis_info.
+Print Assumptions C20_kept_axis_info.
+Print Assumptions C20_single_input_closed_form.
+Print Assumptions C20_block_id_payload.
+Print Assumptions C20_chunks_match_is_equality.
+Print Assumptions C20_freeze_restores.
+Print Assumptions C20_freeze_vanishes_when_settled_matches.
+Print Assumptions C20_freeze_rechunk_only_when_restorable.
+Print Assumptions C20_freeze_unknown_refuses.
+Print Assumptions C20_freeze_rank_mismatch_refuted.
+Print Assumptions C20_freeze_uses_C28_guards.
+Print Assumptions C20_gate.
+Print Assumptions C20_gate_declined_stays_declined.
+Print Assumptions C20_gate_inactive_without_sensitive_dependent.
+Print Assumptions C20_gate_accepts_unchanged_known.
+Print Assumptions C20_grid_sensitive_nodes.
+Print Assumptions C20_ex_docstring.
+Print Assumptions C20_ex_drop_axis.
+Print Assumptions C20_ex_new_axis_two_inputs.
+Print Assumptions C20_ex_inconsistent_blocks.
+Print Assumptions C20_ex_freeze_rechunk.
+Print Assumptions C20_ex_freeze_unknown.
+Print Assumptions C20_ex_gate.
